@@ -76,7 +76,10 @@ func sampleValue(l leaf, variant string, linkTarget string) (reflect.Value, bool
 			v.SetString(map[string]string{"base": "gzip", "ov": "xz", "other": "zstd"}[variant])
 		}
 		if strings.HasSuffix(l.path, "signature.method") {
-			v.SetString(map[string]string{"base": "debsign", "ov": "dpkg-sig", "other": "debsign2"}[variant])
+			v.SetString(map[string]string{"base": "debsign", "ov": "dpkg-sig", "other": "debsign"}[variant])
+		}
+		if strings.HasSuffix(l.path, "signature.type") {
+			v.SetString(map[string]string{"base": "origin", "ov": "maint", "other": "archive"}[variant])
 		}
 	case l.typ.Kind() == reflect.Slice && l.typ.Elem().Kind() == reflect.String:
 		v.Set(reflect.ValueOf([]string{tag + "-1", tag + "-2"}))
